@@ -1,4 +1,1114 @@
-//! C12 — stub, replaced when the property's harness lands.
-use crate::util::{Em, Rng};
+//! C12 — logistic regression (binary, multinomial) and Tweedie GLM.
+//!
+//! Correspondence ops (model = lean/LinfaSpec/Model/{Logistic,Glm}.lean): label coding, scalar
+//! functions, loss/gradient of both logistic problems, prediction at |x.w| ~ 1e3, Tweedie deviance,
+//! derivative, links, cost and gradient — all through the cfg-guarded hooks `verif_hooks_c12`.
+//! Oracle-only ops (`#fit2`, `#fitm`, `#glmfit`): the real `fit`, then the gradient of the DOCUMENTED
+//! objective recomputed here from the textbook formulas at the returned parameters.
+use crate::util::*;
+use linfa::prelude::*;
+use linfa::traits::{Fit, Predict};
+use linfa_linear::verif_hooks_c12 as gh;
+use linfa_linear::{Link, TweedieRegressor};
+use linfa_logistic::verif_hooks_c12 as lh;
+use linfa_logistic::{LogisticRegression, MultiLogisticRegression};
+use ndarray::{Array1, Array2};
 
-pub fn run(_em: &mut Em, _rng: &mut Rng) {}
+type M = Vec<Vec<f64>>;
+
+/// `C12_TRACE=1` prints every fit request to stderr before it runs (to locate a hanging case)
+fn trace(op: &str) {
+    if std::env::var("C12_TRACE").is_ok() {
+        eprintln!("{}", &op[..op.len().min(200)]);
+    }
+}
+
+fn tf(x: f64) -> String {
+    format!("~{}", hex64c(x))
+}
+fn tfs(v: &[f64]) -> String {
+    list(v.iter(), |x| tf(*x))
+}
+fn tfs2(m: &M) -> String {
+    list2(m.iter().map(|r| r.iter()), |x| tf(*x))
+}
+fn hx(v: &[f64]) -> String {
+    list(v.iter(), |x| hex64(*x))
+}
+fn hx2(m: &M) -> String {
+    list2(m.iter().map(|r| r.iter()), |x| hex64(*x))
+}
+fn arr2(m: &M, ncols: usize) -> Array2<f64> {
+    Array2::from_shape_fn((m.len(), ncols), |(i, j)| m[i][j])
+}
+fn to_m(a: &Array2<f64>) -> M {
+    a.rows().into_iter().map(|r| r.to_vec()).collect()
+}
+fn norm2(v: &[f64]) -> f64 {
+    v.iter().map(|x| x * x).sum::<f64>().sqrt()
+}
+
+/// dyadic lattice value k/8, |k| <= 8*range
+fn lat(rng: &mut Rng, range: i64) -> f64 {
+    rng.range(-8 * range, 8 * range) as f64 / 8.0
+}
+fn gen_val(rng: &mut Rng, lattice: bool, scale: f64) -> f64 {
+    if lattice {
+        lat(rng, 4)
+    } else {
+        (rng.unit() * 2.0 - 1.0) * scale
+    }
+}
+fn gen_mat(rng: &mut Rng, n: usize, p: usize, lattice: bool, scale: f64) -> M {
+    (0..n).map(|_| (0..p).map(|_| gen_val(rng, lattice, scale)).collect()).collect()
+}
+
+// ------------------------------------------------------------------ label coding
+
+fn op_label2(em: &mut Em, y: Vec<usize>, ty: usize) {
+    let op = format!("label2 y={} ty={}", list(y.iter(), |v| v.to_string()), ty);
+    em.count(&format!("label2:ty={}", ty));
+    let names = ["pear", "apple", "zebra", "fig", "kiwi"];
+    em.case(op, move |ctx| {
+        let res: Result<(usize, usize, Vec<f64>), String> = match ty {
+            0 => lh::label_classes_hook(&Array1::from(y.clone())).map(|(p, n, t)| (p, n, t.to_vec())).map_err(|e| format!("{:?}", e)),
+            1 => {
+                let ys: Vec<String> = y.iter().map(|c| names[*c].to_string()).collect();
+                let back = |s: &String| names.iter().position(|n| n == s).unwrap();
+                lh::label_classes_hook(&Array1::from(ys)).map(|(p, n, t)| (back(&p), back(&n), t.to_vec())).map_err(|e| format!("{:?}", e))
+            }
+            _ => {
+                let yb: Vec<bool> = y.iter().map(|c| *c == 1).collect();
+                lh::label_classes_hook(&Array1::from(yb)).map(|(p, n, t)| (p as usize, n as usize, t.to_vec())).map_err(|e| format!("{:?}", e))
+            }
+        };
+        match res {
+            Err(e) => format!("err {}", e),
+            Ok((pos, neg, t)) => {
+                // oracle: +-1 coding, positive = pos class, pos at least as frequent, class set
+                let cp = y.iter().filter(|c| **c == pos).count();
+                let cn = y.iter().filter(|c| **c == neg).count();
+                ctx.require(pos != neg && cp + cn == y.len() && cp > 0 && cn > 0, "class_set", "label2", || format!("pos={} neg={} y={:?}", pos, neg, y));
+                ctx.require(cp >= cn, "larger_class_positive", "label2", || format!("pos={} ({}x) neg={} ({}x)", pos, cp, neg, cn));
+                ctx.require(t.len() == y.len() && t.iter().zip(y.iter()).all(|(t, c)| *t == if *c == pos { 1.0 } else { -1.0 }), "labels_pm_one", "label2", || format!("targets {:?} for y={:?} pos={}", t, y, pos));
+                format!("ok pos={} neg={} t={}", pos, neg, list(t.iter(), |v| (*v as i64).to_string()))
+            }
+        }
+    });
+}
+
+fn op_labelm(em: &mut Em, y: Vec<usize>, ty: usize) {
+    // ty 0: usize; 1: strings named so that the string order differs from the generation order —
+    // the request carries the ranks under the string order, so the model sees what the code sees
+    let names = ["pear", "apple", "zebra", "fig", "kiwi", "date"];
+    let mut sorted: Vec<&str> = names.to_vec();
+    sorted.sort();
+    let rank = |c: usize| sorted.iter().position(|s| *s == names[c]).unwrap();
+    let yr: Vec<usize> = if ty == 1 { y.iter().map(|c| rank(*c)).collect() } else { y.clone() };
+    let op = format!("labelm y={} ty={}", list(yr.iter(), |v| v.to_string()), ty);
+    em.count(&format!("labelm:ty={}", ty));
+    em.case(op, move |ctx| {
+        let (classes, onehot): (Vec<usize>, Array2<f64>) = if ty == 1 {
+            let ys: Vec<String> = y.iter().map(|c| names[*c].to_string()).collect();
+            let (cl, oh) = lh::label_classes_multi_hook(&Array1::from(ys)).unwrap();
+            (cl.iter().map(|s| sorted.iter().position(|t| t == s).unwrap()).collect(), oh)
+        } else {
+            lh::label_classes_multi_hook(&Array1::from(y.clone())).unwrap()
+        };
+        let mut want = yr.clone();
+        want.sort();
+        want.dedup();
+        ctx.require(classes == want, "classes_sorted_dedup", "labelm", || format!("classes {:?}, want {:?}", classes, want));
+        for (i, c) in yr.iter().enumerate() {
+            let row = onehot.row(i);
+            let ok = row.len() == classes.len() && row.iter().enumerate().all(|(j, v)| *v == if classes[j] == *c { 1.0 } else { 0.0 });
+            ctx.require(ok, "onehot_row", "labelm", || format!("row {} = {:?} for class {} of {:?}", i, row, c, classes));
+        }
+        format!("ok classes={} onehot={}", list(classes.iter(), |v| v.to_string()), list2(onehot.rows().into_iter().map(|r| r.to_vec()), |v| (v as i64).to_string()))
+    });
+}
+
+// ------------------------------------------------------------------ textbook formulas (oracle side)
+
+/// ln(1 + e^t), stable
+fn softplus(t: f64) -> f64 {
+    if t > 0.0 {
+        t + (-t).exp().ln_1p()
+    } else {
+        t.exp().ln_1p()
+    }
+}
+fn sigmoid(t: f64) -> f64 {
+    if t >= 0.0 {
+        1.0 / (1.0 + (-t).exp())
+    } else {
+        let e = t.exp();
+        e / (1.0 + e)
+    }
+}
+/// documented binary objective: sum_i ln(1 + exp(-y_i (x_i.w + b))) + alpha/2 |w|^2
+fn doc_loss2(x: &M, y: &[f64], alpha: f64, w: &[f64], b: f64) -> f64 {
+    let mut s = 0.0;
+    for (row, yi) in x.iter().zip(y) {
+        let z: f64 = row.iter().zip(w).map(|(a, b)| a * b).sum::<f64>() + b;
+        s += softplus(-yi * z);
+    }
+    s + 0.5 * alpha * w.iter().map(|v| v * v).sum::<f64>()
+}
+/// its gradient: (d/dw, d/db)
+fn doc_grad2(x: &M, y: &[f64], alpha: f64, w: &[f64], b: f64) -> (Vec<f64>, f64) {
+    let mut gw: Vec<f64> = w.iter().map(|v| alpha * v).collect();
+    let mut gb = 0.0;
+    for (row, yi) in x.iter().zip(y) {
+        let z: f64 = row.iter().zip(w).map(|(a, b)| a * b).sum::<f64>() + b;
+        let r = -yi * sigmoid(-yi * z);
+        for (g, a) in gw.iter_mut().zip(row) {
+            *g += r * a;
+        }
+        gb += r;
+    }
+    (gw, gb)
+}
+fn softmax_row(h: &[f64]) -> Vec<f64> {
+    let m = h.iter().cloned().fold(f64::NEG_INFINITY, f64::max);
+    let e: Vec<f64> = h.iter().map(|v| (v - m).exp()).collect();
+    let s: f64 = e.iter().sum();
+    e.iter().map(|v| v / s).collect()
+}
+/// documented multinomial objective: -sum_i ln softmax(x_i W + b)[c_i] + alpha/2 |W|^2
+fn doc_loss_m(x: &M, cls: &[usize], alpha: f64, w: &M, b: &[f64]) -> f64 {
+    let k = b.len();
+    let mut s = 0.0;
+    for (row, c) in x.iter().zip(cls) {
+        let h: Vec<f64> = (0..k).map(|c| row.iter().enumerate().map(|(j, a)| a * w[j][c]).sum::<f64>() + b[c]).collect();
+        let m = h.iter().cloned().fold(f64::NEG_INFINITY, f64::max);
+        let lse = m + h.iter().map(|v| (v - m).exp()).sum::<f64>().ln();
+        s += lse - h[*c];
+    }
+    s + 0.5 * alpha * w.iter().flatten().map(|v| v * v).sum::<f64>()
+}
+fn doc_grad_m(x: &M, cls: &[usize], alpha: f64, w: &M, b: &[f64]) -> (M, Vec<f64>) {
+    let k = b.len();
+    let mut gw: M = w.iter().map(|r| r.iter().map(|v| alpha * v).collect()).collect();
+    let mut gb = vec![0.0; k];
+    for (row, ci) in x.iter().zip(cls) {
+        let h: Vec<f64> = (0..k).map(|c| row.iter().enumerate().map(|(j, a)| a * w[j][c]).sum::<f64>() + b[c]).collect();
+        let p = softmax_row(&h);
+        for c in 0..k {
+            let d = p[c] - if c == *ci { 1.0 } else { 0.0 };
+            for (j, a) in row.iter().enumerate() {
+                gw[j][c] += a * d;
+            }
+            gb[c] += d;
+        }
+    }
+    (gw, gb)
+}
+
+/// textbook Tweedie unit deviance
+fn doc_unit_dev(power: f64, y: f64, mu: f64) -> f64 {
+    if power == 0.0 {
+        (y - mu) * (y - mu)
+    } else if power == 1.0 {
+        2.0 * ((if y == 0.0 { 0.0 } else { y * (y / mu).ln() }) - y + mu)
+    } else if power == 2.0 {
+        2.0 * ((mu / y).ln() + y / mu - 1.0)
+    } else {
+        2.0 * (y.max(0.0).powf(2.0 - power) / ((1.0 - power) * (2.0 - power)) - y * mu.powf(1.0 - power) / (1.0 - power) + mu.powf(2.0 - power) / (2.0 - power))
+    }
+}
+fn doc_link_inv(l: Link, eta: f64) -> f64 {
+    match l {
+        Link::Identity => eta,
+        Link::Log => eta.exp(),
+        Link::Logit => sigmoid(eta),
+    }
+}
+fn doc_link_inv_der(l: Link, eta: f64) -> f64 {
+    match l {
+        Link::Identity => 1.0,
+        Link::Log => eta.exp(),
+        Link::Logit => sigmoid(eta) * sigmoid(-eta),
+    }
+}
+/// documented GLM objective 1/2 (deviance + alpha |coef|^2)
+fn doc_glm_obj(power: f64, l: Link, alpha: f64, x: &M, y: &[f64], coef: &[f64], b: f64) -> f64 {
+    let mut dev = 0.0;
+    for (row, yi) in x.iter().zip(y) {
+        let eta: f64 = row.iter().zip(coef).map(|(a, c)| a * c).sum::<f64>() + b;
+        dev += doc_unit_dev(power, *yi, doc_link_inv(l, eta));
+    }
+    0.5 * (dev + alpha * coef.iter().map(|v| v * v).sum::<f64>())
+}
+/// its gradient (d/dcoef, d/db), d(unit deviance)/dmu = -2 (y - mu) / mu^power
+fn doc_glm_grad(power: f64, l: Link, alpha: f64, x: &M, y: &[f64], coef: &[f64], b: f64) -> (Vec<f64>, f64) {
+    let mut gw: Vec<f64> = coef.iter().map(|v| alpha * v).collect();
+    let mut gb = 0.0;
+    for (row, yi) in x.iter().zip(y) {
+        let eta: f64 = row.iter().zip(coef).map(|(a, c)| a * c).sum::<f64>() + b;
+        let mu = doc_link_inv(l, eta);
+        let r = 0.5 * (-2.0) * (yi - mu) / mu.powf(power) * doc_link_inv_der(l, eta);
+        for (g, a) in gw.iter_mut().zip(row) {
+            *g += r * a;
+        }
+        gb += r;
+    }
+    (gw, gb)
+}
+
+/// Noise floor of the trusted solver: argmin's L-BFGS also reports convergence once a step changes
+/// the cost by less than f64 epsilon, i.e. once |g|^2 / |H| drops below epsilon; |H| is bounded by
+/// `hbound` (sum of squared row norms (+ n for the intercept) + alpha, times the curvature bound
+/// of the loss); a cost change is invisible below ulp(cost) ~ eps * |cost|.  The oracle accepts
+/// `tol + 4 sqrt(eps * max(1, |cost|) * hbound)`.
+fn stagnation_floor(x: &M, icpt: bool, alpha: f64, curv: f64, cost: f64) -> f64 {
+    let s: f64 = x.iter().map(|r| r.iter().map(|v| v * v).sum::<f64>() + if icpt { 1.0 } else { 0.0 }).sum();
+    4.0 * (f64::EPSILON * cost.abs().max(1.0) * (curv * s + alpha)).sqrt()
+}
+
+/// central finite difference of `f` along coordinate `i` of `p`
+fn fd(f: &dyn Fn(&[f64]) -> f64, p: &[f64], i: usize) -> f64 {
+    let h = 1e-5 * (1.0 + p[i].abs());
+    let mut a = p.to_vec();
+    let mut b = p.to_vec();
+    a[i] += h;
+    b[i] -= h;
+    (f(&a) - f(&b)) / (2.0 * h)
+}
+fn close(a: f64, b: f64, rel: f64, abs: f64) -> bool {
+    (a - b).abs() <= abs + rel * a.abs().max(b.abs())
+}
+
+// ------------------------------------------------------------------ scalar functions
+
+fn op_sfn(em: &mut Em, f: &str, v: Vec<f64>) {
+    let op = format!("sfn f={} v={}", f, hx(&v));
+    let f = f.to_string();
+    em.case(op, move |ctx| {
+        let out: Vec<f64> = v.iter().map(|x| if f == "logistic" { lh::logistic_hook(*x) } else { lh::log_logistic_hook(*x) }).collect();
+        for (x, o) in v.iter().zip(&out) {
+            if f == "logistic" {
+                ctx.require(*o >= 0.0 && *o <= 1.0, "proba_in_unit_interval", "logistic", || format!("logistic({}) = {}", x, o));
+            } else {
+                ctx.require(close(*o, -softplus(-x), 1e-12, 1e-15), "log_logistic_is_log_of_logistic", "log_logistic", || format!("log_logistic({}) = {}, want {}", x, o, -softplus(-x)));
+            }
+        }
+        format!("ok {}", tfs(&out))
+    });
+}
+
+fn op_softmax(em: &mut Em, v: Vec<f64>) {
+    let op = format!("softmax v={}", hx(&v));
+    em.case(op, move |ctx| {
+        let out = lh::softmax_hook(&Array1::from(v.clone())).to_vec();
+        ctx.require(out.iter().all(|p| *p >= 0.0 && *p <= 1.0), "proba_in_unit_interval", "softmax", || format!("softmax({:?}) = {:?}", v, out));
+        ctx.require((out.iter().sum::<f64>() - 1.0).abs() <= 1e-12, "rows_sum_to_one", "softmax", || format!("softmax({:?}) sums to {}", v, out.iter().sum::<f64>()));
+        format!("ok {}", tfs(&out))
+    });
+}
+
+fn op_lse(em: &mut Em, m: M) {
+    let k = m[0].len();
+    let op = format!("lse m={}", hx2(&m));
+    em.case(op, move |ctx| {
+        let out = lh::log_sum_exp_rows_hook(&arr2(&m, k)).to_vec();
+        for (row, o) in m.iter().zip(&out) {
+            let mx = row.iter().cloned().fold(f64::NEG_INFINITY, f64::max);
+            let want = mx + row.iter().map(|v| (v - mx).exp()).sum::<f64>().ln();
+            ctx.require(close(*o, want, 1e-12, 1e-12), "log_sum_exp_is_log_of_sum_of_exp", "multi:lse", || format!("log_sum_exp row {:?} of {:?} = {}, want {}", row, m, o, want));
+        }
+        format!("ok {}", tfs(&out))
+    });
+}
+
+// ------------------------------------------------------------------ loss / gradient correspondences
+
+fn op_loss_grad(em: &mut Em, rng: &mut Rng, lattice: bool) {
+    let n = 1 + rng.below(7);
+    let nf = 1 + rng.below(4);
+    let scale = *rng.pick(&[1.0, 10.0, 100.0]);
+    let x = gen_mat(rng, n, nf, lattice, scale);
+    let y: Vec<f64> = (0..n).map(|_| if rng.coin() { 1.0 } else { -1.0 }).collect();
+    let alpha = if lattice { *rng.pick(&[0.0, 0.5, 1.0, 2.0]) } else { rng.unit() * 3.0 };
+    let icpt = rng.chance(2, 3);
+    // a small share of wrong-length parameter vectors (panic branch of convert_params)
+    let wl = if rng.chance(1, 25) { nf + 2 } else { nf + icpt as usize };
+    let wscale = if lattice { 1.0 } else { 1.0 / scale };
+    let w: Vec<f64> = (0..wl).map(|_| gen_val(rng, lattice, 1.0) * wscale).collect();
+    em.count(if lattice { "lossgrad:lattice" } else { "lossgrad:generic" });
+    let args = format!("nf={} x={} y={} alpha={} w={}", nf, hx2(&x), hx(&y), hex64(alpha), hx(&w));
+    {
+        let (x, y, w) = (x.clone(), y.clone(), w.clone());
+        em.case(format!("loss {}", args), move |ctx| {
+            let l = lh::logistic_loss_hook(&arr2(&x, nf), &Array1::from(y.clone()), alpha, &Array1::from(w.clone()));
+            let (ww, b) = if w.len() == nf + 1 { (&w[..nf], w[nf]) } else { (&w[..], 0.0) };
+            let want = doc_loss2(&x, &y, alpha, ww, b);
+            ctx.require(close(l, want, 1e-9, 1e-9), "loss_is_documented_objective", "binary", || format!("logistic_loss = {}, documented objective = {}", l, want));
+            format!("ok {}", tf(l))
+        });
+    }
+    em.case(format!("grad {}", args), move |ctx| {
+        let g = lh::logistic_grad_hook(&arr2(&x, nf), &Array1::from(y.clone()), alpha, &Array1::from(w.clone())).to_vec();
+        let has_b = w.len() == nf + 1;
+        let (ww, b) = if has_b { (&w[..nf], w[nf]) } else { (&w[..], 0.0) };
+        let (gw, gb) = doc_grad2(&x, &y, alpha, ww, b);
+        let mut want = gw;
+        if has_b {
+            want.push(gb);
+        }
+        let sc = 1.0 + norm2(&want);
+        let ok = g.len() == want.len() && g.iter().zip(&want).all(|(a, b)| (a - b).abs() <= 1e-9 * sc);
+        ctx.require(ok, "grad_is_derivative_of_documented_objective", if has_b { "binary:icpt=1" } else { "binary:icpt=0" }, || format!("logistic_grad = {:?}, textbook gradient = {:?}", g, want));
+        // independent of any closed form: central differences of the documented objective
+        let f = |p: &[f64]| if has_b { doc_loss2(&x, &y, alpha, &p[..nf], p[nf]) } else { doc_loss2(&x, &y, alpha, p, 0.0) };
+        for i in 0..g.len().min(w.len()) {
+            let d = fd(&f, &w, i);
+            ctx.require(close(g[i], d, 1e-4, 1e-5 * sc), "grad_matches_finite_difference", if has_b { "binary:icpt=1" } else { "binary:icpt=0" }, || format!("coordinate {}: gradient {} vs finite difference {}", i, g[i], d));
+        }
+        format!("ok {}", tfs(&g))
+    });
+}
+
+fn op_mloss_mgrad(em: &mut Em, rng: &mut Rng, lattice: bool) {
+    let n = 1 + rng.below(6);
+    let nf = 1 + rng.below(3);
+    let k = 2 + rng.below(4);
+    let scale = *rng.pick(&[1.0, 10.0]);
+    let x = gen_mat(rng, n, nf, lattice, scale);
+    let cls: Vec<usize> = (0..n).map(|_| rng.below(k)).collect();
+    let y: M = cls.iter().map(|c| (0..k).map(|j| if j == *c { 1.0 } else { 0.0 }).collect()).collect();
+    let alpha = if lattice { *rng.pick(&[0.0, 0.5, 1.0, 2.0]) } else { rng.unit() * 3.0 };
+    let icpt = rng.chance(2, 3);
+    let wr = if rng.chance(1, 25) { nf + 2 } else { nf + icpt as usize };
+    // mostly moderate score spreads; every 5th lattice case has rows whose scores differ by > 40
+    let wide = lattice && rng.chance(1, 5);
+    let wscale = if wide { 16.0 } else if lattice { 0.25 } else { 0.5 / scale };
+    if wide {
+        em.count("mlossgrad:wide_spread");
+    }
+    let w: M = (0..wr).map(|_| (0..k).map(|_| gen_val(rng, lattice, 1.0) * wscale).collect()).collect();
+    em.count(if lattice { "mlossgrad:lattice" } else { "mlossgrad:generic" });
+    let args = format!("nf={} k={} x={} y={} alpha={} w={}", nf, k, hx2(&x), hx2(&y), hex64(alpha), hx2(&w));
+    {
+        let (x, y, w, cls) = (x.clone(), y.clone(), w.clone(), cls.clone());
+        em.case(format!("mloss {}", args), move |ctx| {
+            let l = lh::multi_logistic_loss_hook(&arr2(&x, nf), &arr2(&y, k), alpha, &arr2(&w, k));
+            let has_b = w.len() == nf + 1;
+            let b = if has_b { w[nf].clone() } else { vec![0.0; k] };
+            let want = doc_loss_m(&x, &cls, alpha, &w[..nf].to_vec(), &b);
+            ctx.require(close(l, want, 1e-9, 1e-9), "loss_is_documented_objective", "multi", || format!("multi_logistic_loss = {}, documented objective = {}", l, want));
+            format!("ok {}", tf(l))
+        });
+    }
+    em.case(format!("mgrad {}", args), move |ctx| {
+        let g = to_m(&lh::multi_logistic_grad_hook(&arr2(&x, nf), &arr2(&y, k), alpha, &arr2(&w, k)));
+        let has_b = w.len() == nf + 1;
+        let b = if has_b { w[nf].clone() } else { vec![0.0; k] };
+        let (mut want, gb) = doc_grad_m(&x, &cls, alpha, &w[..nf].to_vec(), &b);
+        if has_b {
+            want.push(gb);
+        }
+        let sc = 1.0 + norm2(&want.iter().flatten().cloned().collect::<Vec<_>>());
+        let ok = g.len() == want.len() && g.iter().zip(&want).all(|(r, s)| r.len() == s.len() && r.iter().zip(s).all(|(a, b)| (a - b).abs() <= 1e-9 * sc));
+        ctx.require(ok, "grad_is_derivative_of_documented_objective", if has_b { "multi:icpt=1" } else { "multi:icpt=0" }, || format!("multi_logistic_grad = {:?}, textbook gradient = {:?}", g, want));
+        let flat: Vec<f64> = w.iter().flatten().cloned().collect();
+        let f = |p: &[f64]| {
+            let wm: M = p.chunks(k).map(|c| c.to_vec()).collect();
+            let b = if has_b { wm[nf].clone() } else { vec![0.0; k] };
+            doc_loss_m(&x, &cls, alpha, &wm[..nf].to_vec(), &b)
+        };
+        let gf: Vec<f64> = g.iter().flatten().cloned().collect();
+        for i in 0..gf.len().min(flat.len()) {
+            let d = fd(&f, &flat, i);
+            ctx.require(close(gf[i], d, 1e-4, 1e-5 * sc), "grad_matches_finite_difference", if has_b { "multi:icpt=1" } else { "multi:icpt=0" }, || format!("entry {}: gradient {} vs finite difference {}", i, gf[i], d));
+        }
+        format!("ok {}", tfs2(&g))
+    });
+}
+
+// ------------------------------------------------------------------ prediction at extreme scores
+
+fn op_predict2(em: &mut Em, rng: &mut Rng) {
+    let n = 1 + rng.below(6);
+    let nf = 1 + rng.below(3);
+    let x = gen_mat(rng, n, nf, true, 1.0);
+    // |x.w| up to ~ 2e3
+    let big = *rng.pick(&[1i64, 8, 64, 512]);
+    let w: Vec<f64> = (0..nf).map(|_| rng.range(-big, big) as f64).collect();
+    let b = rng.range(-big, big) as f64 / 2.0;
+    let thr = *rng.pick(&[0.5, 0.5, 0.25, 0.75, 0.0, 1.0]);
+    em.count(&format!("predict2:scale={}", big));
+    let op = format!("predict2 x={} w={} b={} thr={}", hx2(&x), hx(&w), hex64(b), hex64(thr));
+    em.case_valid(op, "predict2", move |ctx| {
+        let m = lh::fitted_binary_hook(b, Array1::from(w.clone()), 1usize, 0usize).set_threshold(thr);
+        let xa = arr2(&x, nf);
+        let p = m.predict_probabilities(&xa).to_vec();
+        let cls = m.predict(&xa).to_vec();
+        ctx.require(p.iter().all(|q| *q >= 0.0 && *q <= 1.0), "proba_in_unit_interval", "binary", || format!("probabilities {:?}", p));
+        for i in 0..n {
+            let want = if p[i] >= thr { 1 } else { 0 };
+            ctx.require(cls[i] == want, "class_is_what_threshold_implies", "binary", || format!("row {}: p={} thr={} class={}", i, p[i], thr, cls[i]));
+        }
+        let margin = p.iter().map(|q| (q - thr).abs()).fold(f64::INFINITY, f64::min);
+        format!("ok p={} cls={} margin={}", tfs(&p), list(cls.iter(), |c| c.to_string()), tf(margin))
+    });
+}
+
+fn op_predictm(em: &mut Em, rng: &mut Rng) {
+    let n = 1 + rng.below(5);
+    let nf = 1 + rng.below(3);
+    let k = 2 + rng.below(5);
+    let x = gen_mat(rng, n, nf, true, 1.0);
+    let big = *rng.pick(&[1i64, 8, 64, 512]);
+    let w: M = (0..nf).map(|_| (0..k).map(|_| rng.range(-big, big) as f64).collect()).collect();
+    let b: Vec<f64> = (0..k).map(|_| rng.range(-big, big) as f64 / 2.0).collect();
+    em.count(&format!("predictm:scale={}", big));
+    let op = format!("predictm k={} x={} w={} b={}", k, hx2(&x), hx2(&w), hx(&b));
+    em.case_valid(op, "predictm", move |ctx| {
+        let m = lh::fitted_multi_hook(Array1::from(b.clone()), arr2(&w, k), (0..k).collect::<Vec<usize>>());
+        let xa = arr2(&x, nf);
+        let p = to_m(&m.predict_probabilities(&xa));
+        let cls = m.predict(&xa).to_vec();
+        let mut margin = f64::INFINITY;
+        for i in 0..n {
+            ctx.require(p[i].iter().all(|q| *q >= 0.0 && *q <= 1.0), "proba_in_unit_interval", "multi", || format!("row {}: {:?}", i, p[i]));
+            ctx.require((p[i].iter().sum::<f64>() - 1.0).abs() <= 1e-12, "rows_sum_to_one", "multi", || format!("row {}: {:?} sums to {}", i, p[i], p[i].iter().sum::<f64>()));
+            // the class must carry the largest probability (several classes may share it after saturation)
+            let pm = p[i].iter().cloned().fold(f64::NEG_INFINITY, f64::max);
+            ctx.require(cls[i] < k && p[i][cls[i]] == pm, "class_is_argmax_of_probabilities", "multi", || format!("row {}: class {} with probabilities {:?}", i, cls[i], p[i]));
+            // scores are exact on this lattice: gap of the un-normalised scores
+            let h: Vec<f64> = (0..k).map(|c| x[i].iter().enumerate().map(|(j, a)| a * w[j][c]).sum::<f64>() + b[c]).collect();
+            let top = h.iter().cloned().fold(f64::NEG_INFINITY, f64::max);
+            let first = h.iter().position(|v| *v == top).unwrap();
+            for (c, v) in h.iter().enumerate() {
+                if c != first {
+                    margin = margin.min(top - v);
+                }
+            }
+        }
+        format!("ok p={} cls={} margin={}", tfs2(&p), list(cls.iter(), |c| c.to_string()), tf(margin))
+    });
+}
+
+// ------------------------------------------------------------------ fits (oracle only)
+
+/// data for a binary / multinomial fit; with `alpha == 0` every point occurs with every class, so
+/// the data are not separable and a finite stationary point exists
+fn gen_class_data(rng: &mut Rng, k: usize, alpha0: bool, scale: f64, thorough: bool) -> (M, Vec<usize>) {
+    let nf = 1 + rng.below(4);
+    let base = k + 2 + rng.below(if thorough { 40 } else { 14 });
+    let centers: M = (0..k).map(|_| (0..nf).map(|_| (rng.unit() * 4.0 - 2.0) * scale).collect()).collect();
+    let mut x: M = vec![];
+    let mut y: Vec<usize> = vec![];
+    // every class at least once
+    for i in 0..base {
+        let c = if i < k { i } else if rng.chance(1, 3) { 0 } else { rng.below(k) };
+        let row: Vec<f64> = (0..nf).map(|j| centers[c][j] + (rng.unit() * 3.0 - 1.5) * scale).collect();
+        x.push(row);
+        y.push(c);
+    }
+    if alpha0 {
+        let n0 = x.len();
+        for i in 0..n0 {
+            for c in 0..k {
+                if c != y[i] {
+                    x.push(x[i].clone());
+                    y.push(c);
+                }
+            }
+        }
+    }
+    // sample order is part of the quantifier
+    let mut idx: Vec<usize> = (0..x.len()).collect();
+    rng.shuffle(&mut idx);
+    (idx.iter().map(|i| x[*i].clone()).collect(), idx.iter().map(|i| y[*i]).collect())
+}
+
+const LABEL_NAMES: [&str; 6] = ["pear", "apple", "zebra", "fig", "kiwi", "date"];
+
+fn op_fit2(em: &mut Em, rng: &mut Rng) {
+    let alpha = *rng.pick(&[0.0, 0.01, 0.1, 1.0, 1.0, 10.0]);
+    let scale = *rng.pick(&[1.0, 1.0, 0.01, 10.0, 100.0]);
+    let (x, y) = gen_class_data(rng, 2, alpha == 0.0, scale, em.thorough());
+    let nf = x[0].len();
+    let icpt = rng.chance(2, 3);
+    let ty = rng.below(3);
+    let tol = *rng.pick(&[1e-4, 1e-4, 1e-6, 1e-2]);
+    let init: Option<Vec<f64>> = if rng.chance(1, 4) { Some((0..nf + icpt as usize).map(|_| (rng.unit() - 0.5) / scale).collect()) } else { None };
+    let xbig: M = x.iter().take(4).map(|r| r.iter().map(|v| v * 1e3).collect()).collect();
+    let class = format!("fit2:alpha={},icpt={},scale={}", if alpha == 0.0 { "0" } else { "pos" }, icpt as u8, scale);
+    em.count(&format!("fit2:ty={}", ty));
+    em.count(&class);
+    let op = format!("#fit2 ty={} alpha={} icpt={} tol={} init={} x={} y={}", ty, alpha, icpt as u8, tol, init.as_ref().map_or("none".to_string(), |i| hx(i)), hx2(&x), list(y.iter(), |c| c.to_string()));
+    trace(&op);
+    em.case_valid(op, &class.clone(), move |ctx| {
+        let xa = arr2(&x, nf);
+        let mut params = LogisticRegression::default().alpha(alpha).with_intercept(icpt).gradient_tolerance(tol).max_iterations(10_000);
+        if let Some(i) = &init {
+            params = params.initial_params(Array1::from(i.clone()));
+        }
+        // fit with the label type of the case; results are mapped back to class indices
+        let (w, b, pos, neg, p_ext, c_ext): (Vec<f64>, f64, usize, usize, Vec<f64>, Vec<usize>) = match ty {
+            0 => match params.fit(&Dataset::new(xa.clone(), Array1::from(y.clone()))) {
+                Ok(m) => (m.params().to_vec(), m.intercept(), m.labels().pos.class, m.labels().neg.class, m.predict_probabilities(&arr2(&xbig, nf)).to_vec(), m.predict(&arr2(&xbig, nf)).to_vec()),
+                Err(e) => {
+                    ctx.fail("fit_succeeds", &class, format!("fit returned {}", format!("{:?}", e).lines().next().unwrap_or("").to_string()));
+                    return "err".into();
+                }
+            },
+            1 => {
+                let ys: Vec<String> = y.iter().map(|c| LABEL_NAMES[*c].to_string()).collect();
+                let back = |s: &String| LABEL_NAMES.iter().position(|n| n == s).unwrap();
+                match params.fit(&Dataset::new(xa.clone(), Array1::from(ys))) {
+                    Ok(m) => (m.params().to_vec(), m.intercept(), back(&m.labels().pos.class), back(&m.labels().neg.class), m.predict_probabilities(&arr2(&xbig, nf)).to_vec(), m.predict(&arr2(&xbig, nf)).iter().map(back).collect()),
+                    Err(e) => {
+                        ctx.fail("fit_succeeds", &class, format!("fit returned {}", format!("{:?}", e).lines().next().unwrap_or("").to_string()));
+                        return "err".into();
+                    }
+                }
+            }
+            _ => {
+                let yb: Vec<bool> = y.iter().map(|c| *c == 1).collect();
+                match params.fit(&Dataset::new(xa.clone(), Array1::from(yb))) {
+                    Ok(m) => (m.params().to_vec(), m.intercept(), m.labels().pos.class as usize, m.labels().neg.class as usize, m.predict_probabilities(&arr2(&xbig, nf)).to_vec(), m.predict(&arr2(&xbig, nf)).iter().map(|b| *b as usize).collect()),
+                    Err(e) => {
+                        ctx.fail("fit_succeeds", &class, format!("fit returned {}", format!("{:?}", e).lines().next().unwrap_or("").to_string()));
+                        return "err".into();
+                    }
+                }
+            }
+        };
+        ctx.require((pos == 0 && neg == 1) || (pos == 1 && neg == 0), "class_set", &class, || format!("labels pos={} neg={}", pos, neg));
+        let t: Vec<f64> = y.iter().map(|c| if *c == pos { 1.0 } else { -1.0 }).collect();
+        let (gw, gb) = doc_grad2(&x, &t, alpha, &w, b);
+        let mut g = gw;
+        if icpt {
+            g.push(gb);
+        } else {
+            ctx.require(b == 0.0, "no_intercept_means_zero", &class, || format!("intercept {} although fit_intercept = false", b));
+        }
+        let gn = norm2(&g);
+        let floor = stagnation_floor(&x, icpt, alpha, 1.0, doc_loss2(&x, &t, alpha, &w, b));
+        ctx.require(gn <= tol * 1.0001 + floor, "stationary", &class, || format!("|gradient of the documented objective| = {:e} > gradient_tolerance {:e} (+ solver noise floor {:e}) at w={:?} b={}", gn, tol, floor, w, b));
+        ctx.require(p_ext.iter().all(|q| *q >= 0.0 && *q <= 1.0), "proba_in_unit_interval", &class, || format!("probabilities {:?} on 1e3-scaled rows", p_ext));
+        for (q, c) in p_ext.iter().zip(&c_ext) {
+            let want = if *q >= 0.5 { pos } else { neg };
+            ctx.require(*c == want, "class_is_what_threshold_implies", &class, || format!("p={} class={} (pos={})", q, c, pos));
+        }
+        "ok".into()
+    });
+}
+
+fn op_fitm(em: &mut Em, rng: &mut Rng) {
+    let k = 2 + rng.below(5);
+    let alpha = *rng.pick(&[0.0, 0.01, 0.1, 1.0, 1.0, 10.0]);
+    let scale = *rng.pick(&[1.0, 1.0, 0.01, 10.0, 100.0]);
+    let (x, y) = gen_class_data(rng, k, alpha == 0.0, scale, em.thorough());
+    let nf = x[0].len();
+    let icpt = rng.chance(2, 3);
+    let ty = rng.below(2);
+    let tol = *rng.pick(&[1e-4, 1e-4, 1e-6, 1e-2]);
+    let init: Option<M> = if rng.chance(1, 4) { Some((0..nf + icpt as usize).map(|_| (0..k).map(|_| (rng.unit() - 0.5) / scale).collect()).collect()) } else { None };
+    let class = format!("fitm:alpha={},icpt={},scale={}", if alpha == 0.0 { "0" } else { "pos" }, icpt as u8, scale);
+    run_fitm(em, class, x, y, k, alpha, icpt, ty, tol, init);
+}
+
+fn run_fitm(em: &mut Em, class: String, x: M, y: Vec<usize>, k: usize, alpha: f64, icpt: bool, ty: usize, tol: f64, init: Option<M>) {
+    let nf = x[0].len();
+    let xbig: M = x.iter().take(4).map(|r| r.iter().map(|v| v * 1e3).collect()).collect();
+    em.count(&format!("fitm:k={}", k));
+    em.count(&class);
+    let op = format!("#fitm ty={} k={} alpha={} icpt={} tol={} init={} x={} y={}", ty, k, alpha, icpt as u8, tol, init.as_ref().map_or("none".to_string(), |i| hx2(i)), hx2(&x), list(y.iter(), |c| c.to_string()));
+    trace(&op);
+    em.case_valid(op, &class.clone(), move |ctx| {
+        let xa = arr2(&x, nf);
+        let mut params = MultiLogisticRegression::default().alpha(alpha).with_intercept(icpt).gradient_tolerance(tol).max_iterations(10_000);
+        if let Some(i) = &init {
+            params = params.initial_params(arr2(i, k));
+        }
+        // class index -> rank in the order of the label type (the model's column order)
+        let mut sorted: Vec<&str> = LABEL_NAMES[..k].to_vec();
+        sorted.sort();
+        let rank: Vec<usize> = (0..k).map(|c| if ty == 1 { sorted.iter().position(|s| *s == LABEL_NAMES[c]).unwrap() } else { c }).collect();
+        let (w, b, classes, p_ext, c_ext): (M, Vec<f64>, Vec<usize>, M, Vec<usize>) = if ty == 0 {
+            match params.fit(&Dataset::new(xa.clone(), Array1::from(y.clone()))) {
+                Ok(m) => (to_m(m.params()), m.intercept().to_vec(), m.classes().to_vec(), to_m(&m.predict_probabilities(&arr2(&xbig, nf))), m.predict(&arr2(&xbig, nf)).to_vec()),
+                Err(e) => {
+                    ctx.fail("fit_succeeds", &class, format!("fit returned {}", format!("{:?}", e).lines().next().unwrap_or("").to_string()));
+                    return "err".into();
+                }
+            }
+        } else {
+            let ys: Vec<String> = y.iter().map(|c| LABEL_NAMES[*c].to_string()).collect();
+            let rk = |s: &String| sorted.iter().position(|n| n == s).unwrap();
+            match params.fit(&Dataset::new(xa.clone(), Array1::from(ys))) {
+                Ok(m) => (to_m(m.params()), m.intercept().to_vec(), m.classes().iter().map(rk).collect(), to_m(&m.predict_probabilities(&arr2(&xbig, nf))), m.predict(&arr2(&xbig, nf)).iter().map(rk).collect()),
+                Err(e) => {
+                    ctx.fail("fit_succeeds", &class, format!("fit returned {}", format!("{:?}", e).lines().next().unwrap_or("").to_string()));
+                    return "err".into();
+                }
+            }
+        };
+        ctx.require(classes == (0..k).collect::<Vec<_>>(), "class_set", &class, || format!("classes() = {:?} for {} classes", classes, k));
+        let cls: Vec<usize> = y.iter().map(|c| rank[*c]).collect();
+        ctx.require(w.len() == nf && b.len() == k, "shape", &class, || format!("params {}x?, intercept {}", w.len(), b.len()));
+        let (gw, gb) = doc_grad_m(&x, &cls, alpha, &w, &b);
+        let mut g: Vec<f64> = gw.iter().flatten().cloned().collect();
+        if icpt {
+            g.extend(gb);
+        } else {
+            ctx.require(b.iter().all(|v| *v == 0.0), "no_intercept_means_zero", &class, || format!("intercept {:?} although fit_intercept = false", b));
+        }
+        let gn = norm2(&g);
+        let floor = stagnation_floor(&x, icpt, alpha, 1.0, doc_loss_m(&x, &cls, alpha, &w, &b));
+        ctx.require(gn <= tol * 1.0001 + floor, "stationary", &class, || format!("|gradient of the documented objective| = {:e} > gradient_tolerance {:e} (+ solver noise floor {:e})", gn, tol, floor));
+        for (row, c) in p_ext.iter().zip(&c_ext) {
+            ctx.require(row.iter().all(|q| *q >= 0.0 && *q <= 1.0), "proba_in_unit_interval", &class, || format!("probabilities {:?} on a 1e3-scaled row", row));
+            ctx.require((row.iter().sum::<f64>() - 1.0).abs() <= 1e-12, "rows_sum_to_one", &class, || format!("probabilities {:?} sum to {}", row, row.iter().sum::<f64>()));
+            let pm = row.iter().cloned().fold(f64::NEG_INFINITY, f64::max);
+            ctx.require(*c < k && row[*c] == pm, "class_is_argmax_of_probabilities", &class, || format!("class {} with probabilities {:?}", c, row));
+        }
+        "ok".into()
+    });
+}
+
+// ------------------------------------------------------------------ GLM
+
+fn link_of(l: usize) -> Link {
+    match l {
+        0 => Link::Identity,
+        1 => Link::Log,
+        _ => Link::Logit,
+    }
+}
+fn pick_power(rng: &mut Rng) -> f64 {
+    *rng.pick(&[0.0, 1.0, 1.5, 1.25, 2.0, 3.0])
+}
+fn power_name(p: f64) -> &'static str {
+    if p == 0.0 {
+        "0"
+    } else if p == 1.0 {
+        "1"
+    } else if p < 2.0 {
+        "(1,2)"
+    } else if p == 2.0 {
+        "2"
+    } else {
+        "3"
+    }
+}
+
+fn op_inrange(em: &mut Em, rng: &mut Rng) {
+    let power = *rng.pick(&[0.0, 1.0, 1.5, 2.0, 3.0, 0.5, 0.999, 1.999, -1.0, 2.5]);
+    let n = 1 + rng.below(5);
+    let y: Vec<f64> = (0..n).map(|_| *rng.pick(&[0.0, 0.0, 0.5, 1.0, 2.0, 3.5, -1.0, -0.125, 1e-300])).collect();
+    let op = format!("inrange power={} y={}", hex64(power), hx(&y));
+    em.case(op, move |ctx| {
+        match gh::in_range_hook(power, Array1::from(y.clone()).view()) {
+            Err(_) => "err InvalidTweediePower".into(),
+            Ok(b) => {
+                let want = if power <= 0.0 { true } else if power < 2.0 { y.iter().all(|v| *v >= 0.0) } else { y.iter().all(|v| *v > 0.0) };
+                ctx.require(b == want, "in_range_iff_support", &format!("glm:power={}", power), || format!("in_range({:?}) = {} for power {}", y, b, power));
+                format!("ok {}", b)
+            }
+        }
+    });
+}
+
+/// targets inside the support and means inside the domain of the deviance
+fn gen_y_mu(rng: &mut Rng, power: f64, n: usize, lattice: bool) -> (Vec<f64>, Vec<f64>) {
+    let pos = |rng: &mut Rng| if lattice { (1 + rng.below(32)) as f64 / 8.0 } else { 0.05 + rng.unit() * 5.0 };
+    let y: Vec<f64> = (0..n)
+        .map(|_| {
+            if power == 0.0 {
+                gen_val(rng, lattice, 5.0)
+            } else if power < 2.0 && rng.chance(1, 4) {
+                0.0
+            } else {
+                pos(rng)
+            }
+        })
+        .collect();
+    let mu: Vec<f64> = (0..n).map(|_| if power == 0.0 { gen_val(rng, lattice, 5.0) } else { pos(rng) }).collect();
+    (y, mu)
+}
+
+fn op_dev(em: &mut Em, rng: &mut Rng, lattice: bool) {
+    let power = if rng.chance(1, 12) { *rng.pick(&[0.5, 0.25]) } else { pick_power(rng) };
+    let n = 1 + rng.below(6);
+    let (y, mu) = gen_y_mu(rng, power, n, lattice);
+    em.count(&format!("dev:power={}", power_name(power)));
+    let args = format!("power={} y={} yp={}", hex64(power), hx(&y), hx(&mu));
+    {
+        let (y, mu) = (y.clone(), mu.clone());
+        em.case(format!("dev {}", args), move |_ctx| match gh::deviance_hook(power, Array1::from(y.clone()).view(), Array1::from(mu.clone()).view()) {
+            Err(_) => "err InvalidTweediePower".into(),
+            Ok(d) => format!("ok {}", tf(d)),
+        });
+    }
+    if !(power > 0.0 && power < 1.0) {
+        em.case(format!("ddev {}", args), move |ctx| {
+            let d = gh::deviance_derivative_hook(power, Array1::from(y.clone()).view(), Array1::from(mu.clone()).view()).unwrap().to_vec();
+            for i in 0..y.len() {
+                let f = |m: &[f64]| doc_unit_dev(power, y[i], m[0]);
+                let want = fd(&f, &[mu[i]], 0);
+                // the central difference is off by O(h^2) times the third derivative; scale the absolute slack with the curvature seen at this step
+                let h = 1e-5 * (1.0 + mu[i].abs());
+                let curv = ((f(&[mu[i] + h]) - 2.0 * f(&[mu[i]]) + f(&[mu[i] - h])) / (h * h)).abs();
+                ctx.require(close(d[i], want, 1e-4, 1e-6 * (1.0 + curv)), "deviance_derivative_is_derivative_of_textbook_deviance", &format!("glm:power={}", power_name(power)), || format!("y={} mu={}: derivative {} vs finite difference {}", y[i], mu[i], d[i], want));
+            }
+            format!("ok {}", tfs(&d))
+        });
+    }
+}
+
+fn op_link(em: &mut Em, rng: &mut Rng) {
+    let l = rng.below(3);
+    let n = 1 + rng.below(5);
+    let v: Vec<f64> = (0..n).map(|_| if rng.chance(1, 5) { *rng.pick(&[-1000.0, 1000.0, -40.0, 40.0, 0.0]) } else { lat(rng, 4) }).collect();
+    let op = format!("link l={} v={}", l, hx(&v));
+    em.case(op, move |ctx| {
+        let a = Array1::from(v.clone());
+        let inv = link_of(l).inverse(&a).to_vec();
+        let der = link_of(l).inverse_derviative(&a).to_vec();
+        for i in 0..v.len() {
+            let ok = match l {
+                0 => true,
+                1 => inv[i] >= 0.0,
+                _ => inv[i] >= 0.0 && inv[i] <= 1.0,
+            };
+            ctx.require(ok, "predictions_in_link_range", &format!("glm:link={}", l), || format!("inverse({}) = {}", v[i], inv[i]));
+        }
+        format!("ok inv={} der={}", tfs(&inv), tfs(&der))
+    });
+}
+
+/// a GLM data set whose targets are in range and compatible with the link
+fn gen_glm_data(rng: &mut Rng, power: f64, l: usize, n: usize, nf: usize, lattice: bool) -> (M, Vec<f64>) {
+    let x: M = (0..n).map(|_| (0..nf).map(|_| if lattice { lat(rng, 2) } else { rng.unit() * 2.0 - 1.0 }).collect()).collect();
+    let beta: Vec<f64> = (0..nf).map(|_| rng.unit() * 0.6 - 0.3).collect();
+    let y: Vec<f64> = x
+        .iter()
+        .map(|row| {
+            let eta: f64 = row.iter().zip(&beta).map(|(a, b)| a * b).sum();
+            let noise = 0.8 + 0.4 * rng.unit();
+            let v = match l {
+                0 => (3.0 + eta) * noise,
+                1 => (0.5 + eta).exp() * noise,
+                _ => (sigmoid(eta) * noise).min(0.95).max(0.05),
+            };
+            let v = if power == 0.0 && l == 0 { v - 3.0 } else { v };
+            if lattice {
+                let q = (v * 8.0).round() / 8.0;
+                if power > 0.0 && q <= 0.0 { 0.125 } else { q }
+            } else {
+                v
+            }
+        })
+        .collect();
+    (x, y)
+}
+
+fn op_gcost_ggrad(em: &mut Em, rng: &mut Rng, lattice: bool) {
+    let power = pick_power(rng);
+    let l = rng.below(3);
+    let n = 2 + rng.below(6);
+    let nf = 1 + rng.below(3);
+    let icpt = rng.coin();
+    let alpha = if lattice { *rng.pick(&[0.0, 0.5, 1.0, 2.0]) } else { rng.unit() * 2.0 };
+    let (x, y) = gen_glm_data(rng, power, l, n, nf, lattice);
+    // parameters near the start point, small coefficients: mean stays inside the domain
+    let mut p: Vec<f64> = vec![];
+    if icpt {
+        p.push(match l {
+            0 => 3.0,
+            1 => 0.5,
+            _ => 0.0,
+        });
+    }
+    for _ in 0..nf {
+        p.push(if lattice { lat(rng, 1) / 8.0 } else { (rng.unit() - 0.5) * 0.2 });
+    }
+    if !icpt && l == 0 && power > 0.0 {
+        // identity link without intercept: keep the mean positive through the first coefficient
+        return;
+    }
+    em.count(&format!("glm:power={},link={}", power_name(power), l));
+    let args = format!("l={} power={} alpha={} icpt={} nf={} x={} y={} p={}", l, hex64(power), hex64(alpha), icpt as u8, nf, hx2(&x), hx(&y), hx(&p));
+    {
+        let (x, y, p) = (x.clone(), y.clone(), p.clone());
+        em.case(format!("gcost {}", args), move |_ctx| {
+            match gh::tweedie_cost_hook(&arr2(&x, nf), &Array1::from(y.clone()), icpt, link_of(l), power, alpha, &Array1::from(p.clone())) {
+                Err(_) => "err InvalidTweediePower".into(),
+                Ok(c) => format!("ok {}", tf(c)),
+            }
+        });
+    }
+    em.case(format!("ggrad {}", args), move |ctx| {
+        let g = gh::tweedie_gradient_hook(&arr2(&x, nf), &Array1::from(y.clone()), icpt, link_of(l), power, alpha, &Array1::from(p.clone())).unwrap().to_vec();
+        let class = format!("glm:power={},link={},icpt={}", power_name(power), l, icpt as u8);
+        let off = icpt as usize;
+        let f = |q: &[f64]| doc_glm_obj(power, link_of(l), alpha, &x, &y, &q[off..], if icpt { q[0] } else { 0.0 });
+        let sc = 1.0 + norm2(&g);
+        if g.iter().all(|v| v.is_finite()) {
+            for i in 0..g.len() {
+                let d = fd(&f, &p, i);
+                ctx.require(close(g[i], d, 1e-4, 1e-5 * sc), "grad_matches_finite_difference", &class, || format!("coordinate {}: gradient {} vs finite difference of 1/2(deviance + alpha |w|^2) {}", i, g[i], d));
+            }
+        }
+        format!("ok {}", tfs(&g))
+    });
+}
+
+fn op_gpredict(em: &mut Em, rng: &mut Rng) {
+    let l = rng.below(3);
+    let n = 1 + rng.below(5);
+    let nf = 1 + rng.below(3);
+    let x = gen_mat(rng, n, nf, true, 1.0);
+    let big = *rng.pick(&[1i64, 8, 64]);
+    let coef: Vec<f64> = (0..nf).map(|_| rng.range(-big, big) as f64).collect();
+    let b = rng.range(-big, big) as f64 / 2.0;
+    let op = format!("gpredict l={} x={} coef={} b={}", l, hx2(&x), hx(&coef), hex64(b));
+    em.case_valid(op, "gpredict", move |ctx| {
+        // a fitted regressor with these parameters: fit something tiny with the link, then overwrite the public fields
+        let ds = Dataset::new(Array2::from_shape_fn((3, nf), |(i, j)| ((i + j) % 3) as f64 * 0.1), Array1::from(vec![0.4, 0.5, 0.6]));
+        let mut m = TweedieRegressor::params().power(0.0).link(link_of(l)).alpha(1.0).fit(&ds).unwrap();
+        m.coef = Array1::from(coef.clone());
+        m.intercept = b;
+        let out = m.predict(&arr2(&x, nf)).to_vec();
+        for v in &out {
+            let ok = match l {
+                0 => v.is_finite(),
+                1 => *v >= 0.0,
+                _ => *v >= 0.0 && *v <= 1.0,
+            };
+            ctx.require(ok, "predictions_in_link_range", &format!("glm:link={}", l), || format!("prediction {} outside the range of link {}", v, l));
+        }
+        format!("ok {}", tfs(&out))
+    });
+}
+
+
+/// Watchdog: re-runs case `idx` of this very run in a child process (`--only idx`) and reports whether
+/// it returned within `secs` seconds.  Used for the GLM configurations whose mean can leave the domain
+/// of the deviance (identity link, power >= 1), where the real `fit` may never return.
+fn child_finishes(idx: usize, tier: &str, secs: u64) -> bool {
+    let args: Vec<String> = std::env::args().collect();
+    let seed = args.get(3).cloned().unwrap_or_else(|| "1".into());
+    let dir = std::env::temp_dir().join(format!("hx_c12_child_{}_{}", std::process::id(), idx));
+    let child = std::process::Command::new(std::env::current_exe().unwrap())
+        .args(["C12", tier, &seed, dir.to_str().unwrap(), "--only", &idx.to_string()])
+        .env("C12_CHILD", "1")
+        .stdout(std::process::Stdio::null())
+        .stderr(std::process::Stdio::null())
+        .spawn();
+    let mut child = match child {
+        Ok(c) => c,
+        Err(_) => return true,
+    };
+    let deadline = std::time::Instant::now() + std::time::Duration::from_secs(secs);
+    let mut done = false;
+    while std::time::Instant::now() < deadline {
+        if let Ok(Some(_)) = child.try_wait() {
+            done = true;
+            break;
+        }
+        std::thread::sleep(std::time::Duration::from_millis(10));
+    }
+    if !done {
+        let _ = child.kill();
+        let _ = child.wait();
+    }
+    let _ = std::fs::remove_dir_all(&dir);
+    done
+}
+
+fn op_glmfit(em: &mut Em, rng: &mut Rng) {
+    let power = pick_power(rng);
+    let l = rng.below(3);
+    let n = 6 + rng.below(if em.thorough() { 60 } else { 20 });
+    let nf = 1 + rng.below(3);
+    let icpt = rng.chance(2, 3);
+    let alpha = *rng.pick(&[0.0, 0.01, 0.1, 1.0, 1.0]);
+    let tol = *rng.pick(&[1e-4, 1e-4, 1e-6]);
+    let (x, mut y) = gen_glm_data(rng, power, l, n, nf, false);
+    // a share of out-of-support targets: must be rejected with an error
+    let bad = power > 0.0 && rng.chance(1, 8);
+    if bad {
+        let i = rng.below(n);
+        y[i] = if power >= 2.0 && rng.coin() { 0.0 } else { -0.5 };
+    }
+    run_glmfit(em, power, l, icpt, alpha, tol, bad, x, y);
+}
+
+fn run_glmfit(em: &mut Em, power: f64, l: usize, icpt: bool, alpha: f64, tol: f64, bad: bool, x: M, y: Vec<f64>) {
+    let nf = x[0].len();
+    let class = format!("glmfit:power={},link={},icpt={}", power_name(power), l, icpt as u8);
+    em.count(&class);
+    if bad {
+        em.count("glmfit:target_out_of_support");
+    }
+    let op = format!("#glmfit power={} l={} icpt={} alpha={} tol={} bad={} x={} y={}", power, l, icpt as u8, alpha, tol, bad as u8, hx2(&x), hx(&y));
+    let class_v = class.clone();
+    trace(&op);
+    // identity link with power >= 1: the mean can reach <= 0, where the deviance is undefined
+    let risky = l == 0 && power > 0.0 && !bad;
+    let mut hangs = false;
+    if risky && std::env::var("C12_CHILD").is_err() && em.only.map_or(true, |o| o == em.idx) {
+        let timeouts = *em.dist.get("glmfit:watchdog_timeout").unwrap_or(&0);
+        if timeouts >= if em.thorough() { 6 } else { 2 } {
+            // enough witnesses of the non-termination in this run; do not spend more time on it
+            em.count("glmfit:skipped_after_watchdog_timeouts");
+            return;
+        }
+        let tier = em.tier.clone();
+        hangs = !child_finishes(em.idx, &tier, 5);
+        if hangs {
+            em.count("glmfit:watchdog_timeout");
+        }
+    }
+    let body = move |ctx: &mut Ctx| {
+        if hangs {
+            ctx.fail("terminates", &class, "fit did not return within 5 s (watchdog child process killed); start point has mean <= 0 or the line search left the domain of the deviance".to_string());
+            return "timeout".into();
+        }
+        let ds = Dataset::new(arr2(&x, nf), Array1::from(y.clone()));
+        let res = TweedieRegressor::params().power(power).link(link_of(l)).alpha(alpha).fit_intercept(icpt).tol(tol).max_iter(10_000).fit(&ds);
+        if bad {
+            ctx.require(matches!(res, Err(linfa_linear::LinearError::InvalidTargetRange(_))), "rejects_out_of_support_targets", &format!("glmfit:power={}", power_name(power)), || format!("fit on targets {:?} returned {:?}", y, res.as_ref().map(|m| m.coef.to_vec())));
+            return "ok".into();
+        }
+        match res {
+            Err(e) => {
+                ctx.fail("fit_succeeds", &class, format!("fit returned {}", format!("{:?}", e).lines().next().unwrap_or("").to_string()));
+                "err".into()
+            }
+            Ok(m) => {
+                let coef = m.coef.to_vec();
+                let b = m.intercept;
+                let (gw, gb) = doc_glm_grad(power, link_of(l), alpha, &x, &y, &coef, b);
+                let mut g = gw;
+                if icpt {
+                    g.push(gb);
+                }
+                let gn = norm2(&g);
+                // curvature bound of the unit deviance along the fit: 2 (1 + max|y|) / min(mu, 1)^(power+1) is generous for these data
+                let ymax = y.iter().cloned().fold(0.0, |a: f64, b: f64| a.max(b.abs()));
+                let floor = stagnation_floor(&x, icpt, alpha, 2.0 * (1.0 + ymax) * 20.0, doc_glm_obj(power, link_of(l), alpha, &x, &y, &coef, b));
+                ctx.require(gn <= tol * 1.0001 + floor, "stationary", &class, || format!("|gradient of 1/2(deviance + alpha |w|^2)| = {:e} > tol {:e} (+ solver noise floor {:e}) at coef={:?} intercept={}", gn, tol, floor, coef, b));
+                let pr = m.predict(&arr2(&x, nf)).to_vec();
+                for v in &pr {
+                    let ok = match l {
+                        0 => v.is_finite(),
+                        1 => *v >= 0.0,
+                        _ => *v >= 0.0 && *v <= 1.0,
+                    };
+                    ctx.require(ok, "predictions_in_link_range", &class, || format!("prediction {}", v));
+                }
+                "ok".into()
+            }
+        }
+    };
+    if bad {
+        em.case(op, body)
+    } else {
+        em.case_valid(op, &class_v, body)
+    }
+}
+
+// ------------------------------------------------------------------ run
+
+pub fn run(em: &mut Em, rng: &mut Rng) {
+    let f = if em.thorough() { 10 } else { 1 };
+    // label coding: exhaustive over short label vectors over 3 symbols, plus random longer ones
+    let lmax = if em.thorough() { 7 } else { 5 };
+    for len in 0..=lmax {
+        let mut idx = vec![0usize; len];
+        loop {
+            let ty = if idx.iter().all(|c| *c < 2) { (len + idx.iter().sum::<usize>()) % 3 } else { (len + idx.iter().sum::<usize>()) % 2 };
+            op_label2(em, idx.clone(), ty);
+            if len > 0 {
+                op_labelm(em, idx.clone(), ty % 2);
+            }
+            let mut i = 0;
+            while i < len {
+                idx[i] += 1;
+                if idx[i] < 3 {
+                    break;
+                }
+                idx[i] = 0;
+                i += 1;
+            }
+            if i == len {
+                break;
+            }
+        }
+    }
+    for _ in 0..100 * f {
+        let len = 1 + rng.below(14);
+        let k = 2 + rng.below(4);
+        let y: Vec<usize> = (0..len).map(|_| if rng.chance(1, 3) { 0 } else { rng.below(k) }).collect();
+        if k == 2 || rng.chance(1, 4) {
+            let y2: Vec<usize> = y.iter().map(|c| c % 2).collect();
+            op_label2(em, y2, rng.below(3));
+        } else {
+            op_label2(em, y.clone(), rng.below(2));
+        }
+        op_labelm(em, y, rng.below(2));
+    }
+    // scalar functions incl. the extremes
+    op_sfn(em, "logistic", vec![0.0, 1.0, -1.0, 36.0, -36.0, 709.0, -709.0, 710.0, -710.0, 745.5, -745.5, 1000.0, -1000.0, 1e300, -1e300]);
+    op_sfn(em, "loglogistic", vec![0.0, 1.0, -1.0, 36.0, -36.0, 709.0, -709.0, 1000.0, -1000.0, 1e-300, -1e-300]);
+    for _ in 0..40 * f {
+        let n = 1 + rng.below(6);
+        let v: Vec<f64> = (0..n).map(|_| if rng.coin() { lat(rng, 8) } else { (rng.unit() * 2.0 - 1.0) * 1e3 }).collect();
+        op_sfn(em, if rng.coin() { "logistic" } else { "loglogistic" }, v);
+    }
+    for _ in 0..60 * f {
+        let n = 1 + rng.below(6);
+        let sc = *rng.pick(&[1i64, 8, 100, 1000]);
+        let v: Vec<f64> = (0..n).map(|_| rng.range(-8 * sc, 8 * sc) as f64 / 8.0).collect();
+        op_softmax(em, v);
+        let rows = 1 + rng.below(4);
+        let k = 1 + rng.below(4);
+        let m: M = (0..rows).map(|_| (0..k).map(|_| rng.range(-8 * sc, 8 * sc) as f64 / 8.0).collect()).collect();
+        op_lse(em, m);
+    }
+    for i in 0..150 * f {
+        op_loss_grad(em, rng, i % 3 != 2);
+        op_mloss_mgrad(em, rng, i % 3 != 2);
+    }
+    for _ in 0..100 * f {
+        op_predict2(em, rng);
+        op_predictm(em, rng);
+    }
+    // GLM pieces
+    for _ in 0..80 * f {
+        op_inrange(em, rng);
+        op_link(em, rng);
+        op_gpredict(em, rng);
+    }
+    for i in 0..150 * f {
+        op_dev(em, rng, i % 3 != 2);
+        op_gcost_ggrad(em, rng, i % 3 != 2);
+    }
+    // fits: first the witnesses of the two repaired defects (they fail again if a fix is reverted)
+    {
+        // Poisson cost without the factor 2 on (mu - y): cost and gradient inconsistent, the line search stops early
+        let x: M = (0..8).map(|i| vec![(i as f64) / 4.0 - 1.0]).collect();
+        let y = vec![1.0, 3.0, 2.0, 2.0, 4.0, 3.0, 6.0, 5.0];
+        for l in [1usize, 2, 0] {
+            let yy: Vec<f64> = if l == 2 { y.iter().map(|v| v / 8.0).collect() } else { y.clone() };
+            run_glmfit(em, 1.0, l, true, 0.1, 1e-6, false, x.clone(), yy);
+        }
+        // log_sum_exp with the max of the whole matrix: rows far below it underflow, the gradient is wrong
+        let x: M = [-117.2, -131.9, 151.0, -74.3, 87.9, -149.4, -58.0].iter().map(|v| vec![*v]).collect();
+        run_fitm(em, "fitm:alpha=pos,icpt=1,scale=100".to_string(), x.clone(), vec![1, 2, 3, 0, 0, 4, 0], 5, 0.1, true, 0, 1e-4, None);
+        run_fitm(em, "fitm:alpha=pos,icpt=1,scale=100".to_string(), x, vec![1, 2, 3, 0, 0, 4, 0], 5, 0.1, true, 1, 1e-4, Some(vec![vec![0.001, -0.002, 0.0, 0.003, -0.001], vec![0.0; 5]]));
+    }
+    for _ in 0..60 * f {
+        op_fit2(em, rng);
+        op_fitm(em, rng);
+        op_glmfit(em, rng);
+    }
+}
